@@ -427,7 +427,7 @@ func (c tcase) run(ms *monitors) string {
 func runTraits(f lib.Flags, res *lib.Result, ms *monitors) {
 	g := &gen{r: lib.NewRand(f.Seed + 104729)}
 	fams := tfamilies()
-	n := f.N(300, 4000)
+	n := f.N(210, 4000)
 	for i := 0; i < n; i++ {
 		fam := fams[i%len(fams)]
 		c := tcase{Op: "tstream", Family: fam.name, Mask: fam.masks[g.r.Intn(len(fam.masks))], UpdatesOnly: g.r.Intn(4) == 0, Initial: []int{}, Writes: []int{}}
